@@ -21,7 +21,7 @@ func init() {
 	Register("C18", &CheckInfo{
 		Fn: checkC18, Level: "model_checking",
 		Rule: "(a) every transaction of 1..3 (quick) / 1..4 (thorough) messages over {CreateValidator, Delegate, BeginRedelegate, CancelUnbondingDelegation, Undelegate, bank Send} x amounts {1, 3, 5%, 5%+1, 6% of baseline} x current/baseline in {0.96,1,1.04} x baseline in {0,20,1e9+7} is offered to the real TrackStakeChangesDecorator (real reporter keeper and tracker store, current bonded total supplied by a stub); oracle (one direction, as stated): admitted => bonded+sum(adds) <= 105% and bonded-sum(undelegations) >= 95% of the baseline; (b) tracker monitor on all <=k-deviation histories around the shared skeletons: the recorded baseline/expiry change only at an EndBlock whose block time is >= the stored expiry, and then to the bonded total of that moment",
-		QuickBudget: 6 * time.Minute, ThoroughBudget: 15 * time.Minute,
+		QuickBudget: 10 * time.Minute, ThoroughBudget: 15 * time.Minute,
 	})
 }
 
